@@ -181,6 +181,25 @@ def r14_5(run, model):
     run.floor("package merge sites in the pipelines", n, 5)
 
 
+def canonical_link_order(run, model, rule="R14.1"):
+    """the order in which link_cores merges and concatenates packages is the unconditional result of topo_sort (a canonical order:
+    topo_sort breaks ties by name), never the order the inputs were given in"""
+    f = model.fn("link_cores", SEP)
+    n = 0
+    for l in S.find(f.body, "Local"):
+        if l["pat"]["k"] == "PIdent" and l.get("init") is not None and any(True for _ in S.calls(l["init"], "topo_sort")):
+            n += 1
+            e = l["init"]
+            while e["k"] in ("Try", "Paren"):
+                e = e["expr"]
+            ok = e["k"] == "Call" and S.callee_name(e) == "topo_sort"
+            run.ob(rule, "link_cores|link order is always the canonical topological order", ok, site(SEP, l["sp"]),
+                   f"`{l['pat']['name']}` = {S.norm_ws(run.facts.text(SEP, l['init']['sp']))[:80]}",
+                   witness="link Alpha.core Beta.core Main.core and link Beta.core Alpha.core Main.core give different function order and temporary numbering")
+    if n == 0:
+        raise AnalysisIncomplete("link_cores: no local bound from topo_sort")
+
+
 def r14_8(run, model):
     run.rule("R14.8", "a float literal survives the trip through a .core file: serde_json parses floats exactly only with its `float_roundtrip` "
                       "feature (the default parser may be off by one ulp), so the workspace enables it - or Core does not store floats as "
@@ -222,7 +241,15 @@ def run(run, model):
         run.try_rule(c13.r13_2, cx)
     except AnalysisIncomplete as e:
         run.skipped("R14.6", str(e))
+    from rules import c15
+    from lib.mir import Mir
+    run.rule("R14.9", "what build writes is what link reads: no field of a type reachable from the artifacts is hidden from serde (shared with C15 R15.1)")
+    try:
+        run.try_rule(c15.r15_1, model, Mir(run.facts))
+    except AnalysisIncomplete as e:
+        run.skipped.append({"rule_fn": "r15_1", "reason": str(e)})
     run.try_rule(r14_1, model)
+    run.try_rule(canonical_link_order, model)
     run.try_rule(r14_2, model)
     from rules import c16
     run.rule("R14.7", "both pipelines type-check a package against the environments of its own imports only (shared with C16 R16.5): a "
